@@ -429,6 +429,7 @@ pub mod rust_log_ref_finder
                     result.push(ref_entry);
                 },
                 Rule::other_identifier => (),
+                Rule::raw_string_literal | Rule::silent_string_literal | Rule::char_literal => (),
                 Rule::EOI => (),
                 _ => unreachable!(),
             }
